@@ -143,20 +143,34 @@ func run(r *simkit.Run) {
 	fired := 0
 	switch batch {
 	case batchIOErr:
-		for _, kind := range []string{"io_write_err", "io_short_write", "io_sync_err", "io_read_err", "io_open_err", "io_remove_err", "ldb_storage_err"} {
+		for _, kind := range []string{"io_write_err", "io_short_write", "io_sync_err", "io_read_err", "io_open_err", "io_remove_err", "ldb_storage_err", "crash_after_io_error"} {
 			r.FaultEnabled(kind)
 		}
 		for _, k := range points {
 			salt := uint64(r.C.Intn(1<<20, "fault-salt"))
-			s := &sim{r: r, wl: wl, quiet: os.Getenv("STORESIM_VERBOSE") == "", plan: faultPlan{mode: fmFail, at: k, salt: salt, secondAt: -1}}
+			plan := faultPlan{mode: fmFail, at: k, salt: salt, secondAt: -1}
+			if r.C.Bool(300, "then-crash") {
+				// the error is followed, some I/O calls later, by a crash: what
+				// the failed call left behind has to survive that too
+				plan.crashAfter = 1 + r.C.Intn(80, "then-crash-after")
+				plan.crashMode = simfs.PowerLoss
+				if r.C.Bool(300, "then-crash-process") {
+					plan.crashMode = simfs.ProcessCrash
+				}
+			}
+			s := &sim{r: r, wl: wl, quiet: os.Getenv("STORESIM_VERBOSE") == "", plan: plan}
 			s.execute()
 			if s.fired {
 				fired++
 				r.Fault(s.firedKind)
 				r.Sig("f:" + s.firedKind)
 			}
-			r.Event("ioerr", "k=%d %s %s@%s fired=%v restarts=%d commits=%d", k, s.firedKind, s.firedPoint.Kind,
-				shortPath(s.firedPoint.Path), s.fired, s.restarts, s.model.Commits())
+			if s.crashFired {
+				r.Fault("crash_after_io_error")
+				r.Probe("crash_after_io_error")
+			}
+			r.Event("ioerr", "k=%d %s %s@%s fired=%v restarts=%d commits=%d then-crash=%d/%v", k, s.firedKind, s.firedPoint.Kind,
+				shortPath(s.firedPoint.Path), s.fired, s.restarts, s.model.Commits(), plan.crashAfter, s.crashFired)
 		}
 		r.Count("io_points_failed", fired)
 	case batchCrashProcess, batchCrashPower:
@@ -285,6 +299,11 @@ func (s *sim) execute() {
 		s.ioTotal = s.fs.IOCount()
 		s.tracePoints = s.fs.Points()
 	}
+	if os.Getenv("STORESIM_TRACEALL") != "" && s.plan.mode != fmNone {
+		for _, p := range s.fs.Points() {
+			r.Event("iotrace", "%d %s %s off=%d len=%d", p.Index, p.Kind, p.Path, p.Off, p.Len)
+		}
+	}
 	if s.plan.mode == fmNone && !s.quiet {
 		r.State("files=%s cache=%s", classN(len(s.model.Files())), s.wl.knobClass)
 	}
@@ -343,12 +362,16 @@ func (s *sim) guard(fn func()) (stop bool) {
 				// hung while closing the store abandoned by the crash
 				return !s.afterHangCrash()
 			}
-			return !s.restartAfterFault("store hung")
+			return s.guard(func() {
+				if !s.restartAfterFault("store hung") {
+					panic(stopExec{})
+				}
+			})
 		}
 	}
 	if o.p != nil {
 		if fmt.Sprintf("%T", o.p) != "simkit.abortRun" && sutPanic(o.stack) {
-			if s.plan.mode == fmCrash && s.fs.Frozen() {
+			if s.fs.Frozen() {
 				// the "process" is already dead: what the abandoned store does
 				// on the frozen disk is an artefact of the simulation
 				s.r.Probe("panic_on_frozen_disk_ignored")
@@ -369,7 +392,14 @@ func (s *sim) guard(fn func()) (stop bool) {
 		panic(o.p)
 	}
 	if o.nr != nil {
-		return !s.restartAfterFault(o.nr.why)
+		// (guarded again: the restart may meet the crash that follows the
+		// injected error, and the recovery may hang or end the execution)
+		why := o.nr.why
+		return s.guard(func() {
+			if !s.restartAfterFault(why) {
+				panic(stopExec{})
+			}
+		})
 	}
 	return o.stop
 }
@@ -520,6 +550,11 @@ func (s *sim) aftermath(lo, hi int) {
 	s.handled = true
 	s.postFault = true
 	d, err := s.dump(s.real)
+	if s.fs.Frozen() {
+		// the crash that follows the injected error came during the dump
+		s.recoverFromCrash()
+		return
+	}
 	if err != nil {
 		// unusable: the statement allows Close + reopen
 		if !s.restartAfterFault("dump: " + errCode(err)) {
@@ -564,14 +599,28 @@ func (s *sim) restartAfterFault(why string) bool {
 		return false
 	}
 	_ = s.closeReal()
+	if s.fs.Frozen() {
+		// the crash that follows the injected error came while closing
+		s.recoverFromCrash()
+		return s.real != nil
+	}
 	image, _ := s.fs.CrashImage(simfs.ProcessCrash, nil, "")
 	s.install(image)
-	if err := s.openReal(false); err != nil {
+	err := s.openReal(false)
+	if s.fs.Frozen() {
+		s.recoverFromCrash()
+		return s.real != nil
+	}
+	if err != nil {
 		s.r.Violate(prop, "reopen-after-io-error", s.openFailureKey(err.Error()),
 			"after injected %s (%s) and a process restart the store does not open: %v", s.firedKind, why, err)
 		return false
 	}
 	d, err := s.dump(s.real)
+	if s.fs.Frozen() {
+		s.recoverFromCrash()
+		return s.real != nil
+	}
 	if err != nil {
 		s.violate("reopen-after-io-error", "", "reopened store cannot be read: %v", err)
 	}
@@ -738,6 +787,11 @@ func (s *sim) crashViolation(oracle string, lostLoose int, format string, args .
 	case s.plan.crashMode == simfs.PowerLoss && s.rolled && lostLoose > 0:
 		key = "rollover-unsynced-powerloss"
 	}
+	if s.plan.mode == fmFail {
+		s.r.Violate(prop, oracle, key, "injected %s at I/O #%d (%s %s), then crash(%s) %d I/O calls later: %s", s.firedKind,
+			s.firedPoint.Index, s.firedPoint.Kind, shortPath(s.firedPoint.Path), batchNames[batchCrashProcess+int(s.plan.crashMode)], s.plan.crashAfter, msg)
+		panic(stopExec{})
+	}
 	s.r.Violate(prop, oracle, key, "crash(%s) at I/O #%d (%s %s), second=%d: %s", batchNames[batchCrashProcess+int(s.plan.crashMode)],
 		s.firedPoint.Index, s.firedPoint.Kind, shortPath(s.firedPoint.Path), s.plan.secondAt, msg)
 	// a listed known finding: end this execution
@@ -748,12 +802,13 @@ func (s *sim) crashViolation(oracle string, lostLoose int, format string, args .
 func (s *sim) finish() {
 	f0 := s.fired
 	d, err := s.dump(s.real)
-	if s.fs.Frozen() {
-		s.recoverFromCrash()
-		d, err = s.dump(s.real)
-	} else if s.fired && !f0 {
+	if !s.fs.Frozen() && s.fired && !f0 {
 		// the injected fault hit this very dump: it was a read-only victim
 		s.handled, s.postFault = true, true
+		d, err = s.dump(s.real)
+	}
+	if s.fs.Frozen() {
+		s.recoverFromCrash()
 		d, err = s.dump(s.real)
 	}
 	if err != nil {
@@ -792,11 +847,12 @@ func (s *sim) finish() {
 	}
 	f0 = s.fired
 	d, err = s.dump(s.real)
+	if !s.fs.Frozen() && s.fired && !f0 {
+		s.handled, s.postFault = true, true
+		d, err = s.dump(s.real)
+	}
 	if s.fs.Frozen() {
 		s.recoverFromCrash()
-		d, err = s.dump(s.real)
-	} else if s.fired && !f0 {
-		s.handled, s.postFault = true, true
 		d, err = s.dump(s.real)
 	}
 	if err != nil {
